@@ -142,6 +142,7 @@ var c04Decl = [][]string{
 	{"(def s$ \"abc\")", "(concat s$ \"d\")", "(len s$)", "(str 12)", "(sget s$ 1)", "`raw $`", "'c'"},
 	{"(def l$ (list 1 2 3))", "(first l$)", "(rest l$)", "(cons 0 l$)", "(map (fn [x] (* x x)) l$)", "(apply + l$)", "(quote (a b))", "%(1 2)"},
 	{"(include \"%DIR%/one.zy\" \"%DIR%/two.zy\")", "(+ 1 (include \"%DIR%/two.zy\"))", "(include [\"%DIR%/one.zy\" \"%DIR%/empty.zy\"])", "(include \"%DIR%/empty.zy\")", "(source \"%DIR%/one.zy\")", "(len [1 (begin) (newScope) 2])", "(+ 1 2 (or (begin) 4))", "(begin)", "(newScope)", "(def inc$ (include \"%DIR%/one.zy\" \"%DIR%/one.zy\" \"%DIR%/two.zy\"))", "inc$"},
+	{"(source \"%DIR%/one.zy\" \"%DIR%/two.zy\")", "(source [\"%DIR%/one.zy\" \"%DIR%/two.zy\"])", "(+ 1 (source \"%DIR%/two.zy\" \"%DIR%/one.zy\"))", "(source \"%DIR%/empty.zy\")", "(func g2$ [] [a:int64 b:int64])", "(g2$)", "(len (g2$))", "(func g1$ [] [a:int64])", "(g1$)", "(func g0$ [] [])", "(g0$)", "(len [1 (g0$) 2])", "(func r2$ [a:int64] [x:int64 y:int64] (return a (+ a 1)))", "(r2$ 4)", "(len (r2$ 4))"},
 	{"(def f$ (fn [a & r] (len r)))", "(f$ 1)", "(f$ 1 2 3)", "((fn [] 7))", "(let [k 2] (letseq [m k n (+ m 1)] (* m n)))", "(newScope (def inner$ 1) inner$)", "(begin 1 2 3)", "(and 1 2)", "(or 0 nil 3)"},
 }
 
